@@ -218,7 +218,15 @@ def run(rep):
                     (work / ld.cname[a]).write_bytes(img[:k])
                     check_call(rep, ld, a, work, {'prefix_bytes': k, 'of': len(img)})
                     seen.add((kind, a, k))
-                for gi, garbage in enumerate([b'', b'\x00' * 64, b'not a pickle', img[::-1], img[10:], img + b'trailing']):
+                unreadable = [b'', b'\x00' * 64, b'not a pickle', img[::-1], img[10:], img + b'trailing',
+                              b'cno_such_module_xyz\nThing\n.',            # ModuleNotFoundError (cache written with another environment)
+                              b'cgemdat.trajectory\nNoSuchClass\n.',       # AttributeError (class renamed between versions)
+                              b'I12a\n.', b'Fabc\n.',                       # ValueError
+                              b'hello world, this is not a cache\n',        # UnpicklingError
+                              b'\x80\x04\x95\xff\xff\xff\xff\xff\xff\xff\xff.',   # OverflowError
+                              b"cbuiltins\nobject\n)R}S'a'\nI1\nsb.",       # AttributeError while building
+                              img[:len(img) // 2] + img[len(img) // 2 + 7:]]   # a hole in the middle
+                for gi, garbage in enumerate(unreadable):
                     for p in work.glob('*.cache'):
                         p.unlink()
                     (work / ld.cname[a]).write_bytes(garbage)
